@@ -243,6 +243,21 @@ func RunC07(w *Workload, st *Stats, maxYields uint64) *RunReport {
 			for k, op := range w.Tasks[t] {
 				rc := &recs[t][k]
 				rc.op = op
+				if op.K == "churn" {
+					// many compilations of distinct small texts: whatever Compile keeps
+					// between calls (caches, rings, LRU lists) is turned over
+					rc.skipped = true
+					for i := 0; i < op.R; i++ {
+						text := fmt.Sprintf("churn_%d_%d_%d", op.E, t, i)
+						if e, o := callCompile(text); e == nil {
+							rc.skipped = false
+							rc.text, rc.docEnc, rc.out, rc.oneShot = text, "null", o, false
+							rc.key = o.Key()
+							break
+						}
+					}
+					continue
+				}
 				if op.E < 0 || op.E >= len(w.Exprs) || op.D < 0 || op.D >= len(docs) {
 					rc.skipped = true
 					continue
@@ -352,12 +367,11 @@ func RunC07(w *Workload, st *Stats, maxYields uint64) *RunReport {
 		want := callFresh(rc.text, pristine, !rc.oneShot) // the other API path than the one under test
 		if want.Key() != rc.key {
 			// is the library deterministic at all for this call?
+			// (the same API path evaluated again, alone, on an equal document)
 			simrt.SetPolicy(rc.op.Pol)
 			again := callFresh(rc.text, MustDec(rc.docEnc), !rc.oneShot)
-			simrt.SetPolicy(rc.op.Pol)
-			third := callFresh(rc.text, MustDec(rc.docEnc), rc.oneShot)
-			if again.Key() != want.Key() || third.Key() != want.Key() {
-				rep.Inconclusive = fmt.Sprintf("library is nondeterministic for %q (see C15): %s vs %s vs %s", rc.text, trunc(want.Key(), 120), trunc(again.Key(), 120), trunc(third.Key(), 120))
+			if again.Key() != want.Key() {
+				rep.Inconclusive = fmt.Sprintf("library is nondeterministic for %q even when run alone (see C15): %s vs %s", rc.text, trunc(want.Key(), 120), trunc(again.Key(), 120))
 				return rep
 			}
 			rep.Viol = &Violation{Prop: "C07", Class: "outcome-mismatch", Sig: "outcome-mismatch",
@@ -510,6 +524,15 @@ func RunC06(w *Workload, st *Stats, maxYields uint64) *RunReport {
 				}
 				h.results = append(h.results, val)
 				h.rfps = append(h.rfps, Fingerprint(val))
+			case "churn":
+				for i := 0; i < op.R; i++ {
+					text := fmt.Sprintf("churn_%d_%d", op.E, i)
+					if e, o := callCompile(text); e == nil {
+						viol = &Violation{Prop: "C06", Class: "outcome-mismatch", Sig: "outcome-mismatch",
+							Detail: fmt.Sprintf("op %d: Compile(%q) fails after earlier compilations: %s", k, text, o.Key())}
+						return
+					}
+				}
 			case "feed":
 				if op.R < 0 || op.R >= len(h.results) {
 					continue
@@ -530,7 +553,7 @@ func RunC06(w *Workload, st *Stats, maxYields uint64) *RunReport {
 		}
 	}
 	res := simrt.Run([]func(){body}, w.Sched, maxYields)
-	rep.Explicit = w.Sched
+	rep.Explicit = explicitOf(res, w.Sched)
 	noteSchedule(st, w, res)
 	dg := hmix(res.Digest, res.MapDigest)
 	if viol != nil {
@@ -588,14 +611,9 @@ func RunC06(w *Workload, st *Stats, maxYields uint64) *RunReport {
 		simrt.SetPolicy(rc.op.Pol)
 		want := callFresh(rc.text, MustDec(rc.docEnc), !rc.oneShot)
 		if want.Key() != rc.key {
-			simrt.SetPolicy(rc.op.Pol)
-			again := callFresh(rc.text, MustDec(rc.docEnc), !rc.oneShot)
-			simrt.SetPolicy(rc.op.Pol)
-			third := callFresh(rc.text, MustDec(rc.docEnc), rc.oneShot)
-			if again.Key() != want.Key() || third.Key() != want.Key() {
-				rep.Inconclusive = fmt.Sprintf("library is nondeterministic for %q (see C15)", rc.text)
-				return rep
-			}
+			// Whatever the reason (state kept across calls, or plain
+			// nondeterminism), the call did not return what a fresh evaluation
+			// returns: that is what C06 forbids.
 			rep.Viol = &Violation{Prop: "C06", Class: "outcome-mismatch", Sig: "outcome-mismatch",
 				Detail: fmt.Sprintf("op %d (%s %q): outcome in history %s, fresh evaluation %s", k, rc.op.K, rc.text, trunc(rc.key, 400), trunc(want.Key(), 400))}
 			return rep
@@ -836,7 +854,7 @@ func RunC15(w *Workload, st *Stats, maxYields uint64) *RunReport {
 		}
 	}
 	res := simrt.Run([]func(){body}, w.Sched, maxYields)
-	rep.Explicit = w.Sched
+	rep.Explicit = explicitOf(res, w.Sched)
 	noteSchedule(st, w, res)
 	st.GCs += gcs
 	dg := hmix(res.Digest, res.MapDigest)
